@@ -347,6 +347,16 @@ func run(c Case) (pbt.Outcome, error) {
 	if sa.Counter(name) != ca || sa.Gauge(name) != sa.Gauge(name) || sa.Timer(name) != sa.Timer(name) || sa.Histogram(name, nil) != sa.Histogram(name, nil) {
 		errs.Addf("asking a scope twice for the same metric returned different objects")
 	}
+	// the same name asked for again is the same histogram whatever bucket argument comes with the
+	// later request (nil, the defaults, another set, a set of the other kind): the first creation
+	// decides, and what was recorded through the first handle stays deliverable
+	hname := name + "-hx"
+	h1 := sa.Histogram(hname, tally.ValueBuckets{1, 2})
+	for _, later := range []tally.Buckets{nil, tally.DefaultBuckets, tally.ValueBuckets{5}, tally.DurationBuckets{time.Second}, tally.ValueBuckets{1, 2}} {
+		if sa.Histogram(hname, later) != h1 {
+			errs.Addf("Histogram(%q) asked for again with buckets %v returned a different object than the first request (ValueBuckets{1,2})", hname, later)
+		}
+	}
 	if sameID {
 		if sa != sb {
 			errs.Addf("derivations with the same identity (prefix %q, tags %v) returned different scopes", ma.Prefix, ma.Tags)
